@@ -24,4 +24,12 @@ CHECKS = {
         "bounded-exhaustive execution is the right level; expression bodies and values are sampled.",
    note="Trusted base: numpy elementary functions, Python float arithmetic. Cyclic graphs excluded.",
    technique="runtime monitoring: postcondition monitors on the real Parameters methods + independent expression evaluator, exhaustive graph/order enumeration"),
+ "C16": dict(category="exploration",
+   text="Generated valid parameter sets (label, value, bound, flag, expression classes incl. numeric-looking and keyword-like labels, full double range) "
+        "are saved and loaded through the real save_parameters/load_parameters for csv, tsv, xlsx, ods (+ separator and infinity options), twice, and "
+        "compared field by field at the API with exact float equality; yml/list/dict specification texts are compared with a harness-built expectation. "
+        "Sampling is the right level: the space of parameter sets is unbounded and the failure modes are type-inference classes, which the label / value / "
+        "column classes enumerate.",
+   note="Trusted base: Python float repr, the harness's expectation of the yml semantics. Known findings F9c/F9e/F9g (xlsx/ods library limitations) are attributed only when the exact bug model holds.",
+   technique="runtime monitoring: round-trip oracle at the API boundary over generated parameter sets, recorders on the dataframe conversion paths"),
 }
